@@ -791,6 +791,135 @@ fn run_group(g: &FormGroup) -> GroupRes {
     GroupRes { reference, bad, runs }
 }
 
+// ------------------------------------------------------------------ *Imm sweep
+/// Each `*Imm` instruction the optimizer introduces, sampled at a spread of NON-literal operand values
+/// (random mantissas and boundary values) against the un-fused pair (variable second operand, optimizer
+/// off).  Floats are compared through `to_string` (shortest round trip: distinct non-NaN bits print
+/// differently) plus a sign probe for NaN.
+struct ImmJob {
+    float: bool,
+    op: &'static str,
+    imm_name: &'static str,
+    lit: String,
+    vals: Vec<String>,
+}
+
+struct ImmRes {
+    bad: Vec<String>,
+    has_imm: bool,
+    runs: usize,
+}
+
+fn imm_programs(j: &ImmJob, vals: &[String]) -> (String, String, String) {
+    let ty = if j.float { "float" } else { "int" };
+    let cmp = matches!(j.op, "<" | "<=" | ">" | ">=" | "==");
+    let probe = j.float && !cmp;
+    // reference: variable second operand; A: dest Top, first operand a local; B: dest a local, first operand on Top
+    let mut r = format!("let c = {}\n", j.lit);
+    let mut a = String::new();
+    let mut b = format!("fn idf(x: {ty}) -> {ty} {{\n  x\n}}\n");
+    for (i, v) in vals.iter().enumerate() {
+        r.push_str(&format!("let v{i} = {v}\nprintln(v{i} {} c)\n", j.op));
+        a.push_str(&format!("let v{i} = {v}\nprintln(v{i} {} {})\n", j.op, j.lit));
+        b.push_str(&format!("let v{i} = {v}\nlet r{i} = idf(v{i}) {} {}\nprintln(r{i})\n", j.op, j.lit));
+        if probe {
+            r.push_str(&format!("println((v{i} {} c) < 0.0)\n", j.op));
+            a.push_str(&format!("println((v{i} {} {}) < 0.0)\n", j.op, j.lit));
+            b.push_str(&format!("println(r{i} < 0.0)\n"));
+        }
+    }
+    (r, a, b)
+}
+
+fn run_imm(j: &ImmJob) -> ImmRes {
+    let mut runs = 0;
+    let mut bad = vec![];
+    let (r, a, b) = imm_programs(j, &j.vals);
+    let has_imm = dump(&a).map(|d| d.trace.last().map(|t| t.iter().any(|l| l.contains(j.imm_name))).unwrap_or(false)).unwrap_or(false);
+    let reference = run_canon(&r, true);
+    runs += 1;
+    let mut all_ok = reference.status == "done";
+    for (src, skip) in [(&a, false), (&b, false), (&a, true), (&r, false)] {
+        let c = run_canon(src, skip);
+        runs += 1;
+        if c.status != reference.status || c.out != reference.out {
+            all_ok = false;
+        }
+    }
+    if !all_ok {
+        // an error stops a program: look at every operand value on its own
+        for v in &j.vals {
+            let one = vec![v.clone()];
+            let (r, a, b) = imm_programs(j, &one);
+            let reference = run_canon(&r, true);
+            runs += 1;
+            // (the literal form with the optimizer off and the variable form with it on are part (3))
+            for (name, src, skip) in [("imm, dest top (optimizer on)", &a, false), ("imm, operand on top (optimizer on)", &b, false)] {
+                let c = run_canon(src, skip);
+                runs += 1;
+                if c.status != reference.status || c.out != reference.out {
+                    bad.push(format!(
+                        "{} {} {}: form {name} gives {} {:?}, variable operand with the optimizer off gives {} {:?}\n--- {name}\n{src}--- reference\n{r}",
+                        v, j.op, j.lit, c.status, c.out, reference.status, reference.out
+                    ));
+                }
+            }
+        }
+    }
+    ImmRes { bad, has_imm, runs }
+}
+
+fn random_float(rng: &mut Rng) -> f64 {
+    let frac = (rng.next() >> 12) as f64 / (1u64 << 52) as f64;
+    let k = rng.range(-4, 6) as i32;
+    let x = (1.0 + frac) * 2f64.powi(k);
+    if rng.chance(1, 3) { -x } else { x }
+}
+
+fn imm_jobs(rng: &mut Rng, quick: bool) -> Vec<ImmJob> {
+    let mx = float_lit(f64::MAX);
+    let nrand = if quick { 8 } else { 60 };
+    let mut fvals: Vec<String> = vec![];
+    for x in [0.0f64, -0.0, 1.2, 0.1, -1.5, 3.0, 5e-324, 2.2250738585072014e-308, 9007199254740993.0, 1e300, f64::MAX, -f64::MAX] {
+        fvals.push(float_lit(x));
+    }
+    fvals.push(format!("({mx} * 10.0)"));
+    fvals.push(format!("({mx} * (-10.0))"));
+    fvals.push(format!("({mx} * 10.0 - {mx} * 10.0)"));
+    for _ in 0..nrand {
+        fvals.push(float_lit(random_float(rng)));
+    }
+    let mut ivals: Vec<String> = [0i64, 1, -1, 2, -2, 3, 7, -7, 63, 64, 2147483647, 4294967296, 3037000500, i64::MAX, i64::MAX - 1, i64::MIN, i64::MIN + 1]
+        .iter().map(|n| int_lit(*n)).collect();
+    for _ in 0..nrand {
+        let n = match rng.below(3) {
+            0 => rng.next() as i64,
+            1 => rng.range(-1000, 1000),
+            _ => rng.range(-(1 << 40), 1 << 40),
+        };
+        ivals.push(int_lit(n));
+    }
+    let flits: Vec<String> = [2.0f64, 3.0, 4.0, 5.0, -1.0, -2.0, -3.0, 16.0, 17.0, 0.5, 1.0, 0.0, -0.0, 0.1, 1e300, 2.5]
+        .iter().map(|x| float_lit(*x)).collect();
+    let ilits: Vec<String> = [0i64, 1, -1, 2, 3, 5, 63, 64, 4294967296, i64::MAX, i64::MIN].iter().map(|n| int_lit(*n)).collect();
+    let fops: [(&str, &str); 10] = [("+", "AddFloatImm"), ("-", "SubFloatImm"), ("*", "MulFloatImm"), ("/", "DivFloatImm"), ("^", "PowFloatImm"),
+        ("<", "LessThanFloatImm"), ("<=", "LessThanOrEqualFloatImm"), (">", "GreaterThanFloatImm"), (">=", "GreaterThanOrEqualFloatImm"), ("==", "EqualFloatImm")];
+    let iops: [(&str, &str); 11] = [("+", "AddIntImm"), ("-", "SubIntImm"), ("*", "MulIntImm"), ("/", "DivIntImm"), ("^", "PowIntImm"), ("%", "ModuloImm"),
+        ("<", "LessThanIntImm"), ("<=", "LessThanOrEqualIntImm"), (">", "GreaterThanIntImm"), (">=", "GreaterThanOrEqualIntImm"), ("==", "EqualIntImm")];
+    let mut jobs = vec![];
+    for (op, name) in fops {
+        for l in &flits {
+            jobs.push(ImmJob { float: true, op, imm_name: name, lit: l.clone(), vals: fvals.clone() });
+        }
+    }
+    for (op, name) in iops {
+        for l in &ilits {
+            jobs.push(ImmJob { float: false, op, imm_name: name, lit: l.clone(), vals: ivals.clone() });
+        }
+    }
+    jobs
+}
+
 // ------------------------------------------------------------------ main
 fn main() {
     let mut ctx = Ctx::from_env("C05");
@@ -1019,6 +1148,20 @@ fn main() {
                 "{}: operand forms disagree; reference (variables, optimizer off) = {} {:?}; {}\n{srcs}",
                 grp.what, r.reference.status, r.reference.out, r.bad.join("; ")
             ));
+        }
+    }
+    // ---------- (5): every *Imm instruction at a spread of non-literal operand values
+    let jobs = imm_jobs(&mut ctx.rng, quick);
+    let res = par_map(&jobs, run_imm);
+    for (j, r) in jobs.iter().zip(res) {
+        *ctx.hist.entry(format!("imm-sweep:{}:operand-values", j.imm_name)).or_insert(0) += j.vals.len() as u64;
+        *ctx.hist.entry("imm-sweep:program-runs".into()).or_insert(0) += r.runs as u64;
+        if !r.has_imm {
+            ctx.count(&format!("imm-sweep:{}:not-emitted", j.imm_name));
+            ctx.notes.push(format!("imm sweep: `v {} {}` did not compile to {}", j.op, j.lit, j.imm_name));
+        }
+        for b in r.bad.iter().take(3) {
+            ctx.spec_fail(format!("{} sweep: {b}", j.imm_name));
         }
     }
     ctx.finish();
